@@ -155,6 +155,22 @@ def run(ctx, prog):
         return None
     A.require('serialize/pipeline-roaring-zlib-base64url', paths, r_ser, replay=R('[roundtrip]'))
 
+    # the detector's premise: streams are written with the default compression level (zlib header 0x78 0x9C)
+    f = prog.one(IMPL + r'compress_zlib$')
+    paths, ex = A.paths(f)
+
+    def r_cz(p):
+        if p.kind != 'return':
+            return 'panic ' + p.msg
+        enc = [c for c in p.calls if re.search(r'ZlibEncoder<.*>::new$|ZlibEncoder::new$', c.name)]
+        if len(enc) != 1:
+            return 'not exactly one ZlibEncoder'
+        lvl = enc[0].args[1]
+        if not (apps(lvl, r'Compression as (\w+::)*Default>::default$|Compression::default$') and strip(lvl)[0] == 'app'):
+            return 'compression level is not Compression::default() on every path: %s' % term_str(lvl)[:100]
+        return None
+    A.require('compress_zlib/default-compression-level-(premise-of-the-format-detector)', paths, r_cz, replay=R('[roundtrip]'))
+
     f = prog.one(IMPL + r'try_from_endpoint$')
     paths, ex = A.paths(f)
 
@@ -255,6 +271,12 @@ def run(ctx, prog):
                 return 'panic ' + p.msg
             nx = [c for c in p.calls if re.search(r'Iterator>::next$', c.name) and p.took(c, 'Some')]
             ops = [c for c in p.find_calls(r'RevocationBitmap::(revoke|unrevoke)$')]
+            it = [c for c in p.calls if re.search(r'IntoIterator>::into_iter$|::iter$', c.name)]
+            if not it:
+                return 'the listed indices are not iterated one by one'
+            other = [c for c in p.calls if c not in ops and not c.inlined and re.search(r'RevocationBitmap::|RoaringBitmap', c.name)]
+            if other:
+                return 'bitmap changed by %s instead of one %s per listed index' % (other[0].name.split('::')[-1], op)
             if len(nx) != len(ops):
                 return 'not one bitmap operation per index'
             for n, o in zip(nx, ops):
